@@ -8,6 +8,7 @@ import Driver.Nat
 import Driver.Addressing
 import Driver.Deadline
 import Driver.TBF
+import Driver.BufSync
 
 def main (args : List String) : IO UInt32 := do
   match args with
@@ -22,4 +23,5 @@ def main (args : List String) : IO UInt32 := do
   | ["host"] => Driver.runComponent Driver.Addressing.host; return 0
   | ["deadline"] => Driver.runComponent Driver.Deadline.comp; return 0
   | ["tbf"] => Driver.runComponent Driver.TBF.comp; return 0
+  | ["bufsync"] => Driver.runComponent Driver.BufSync.comp; return 0
   | _ => IO.eprintln "usage: vdrv <component> [args]"; return 2
